@@ -143,6 +143,8 @@ max_size = Contract(
     target="cotengra.core:ContractionTree.max_size",
     props=["C03", "C04"],
     params={},
+    returns=Ty.Opt(Ty.Int),
+    modifies=["self._sizes", "self._track_size"],
     requires=["sizes_wf", "self.N >= 2"],
     ensures=[
         "self._track_size",
@@ -150,6 +152,8 @@ max_size = Contract(
         "is_neginf(result) == (keys(self._sizes._c) == empty())",
         "implies(not is_neginf(result), unopt(result) in self._sizes._c and forall(keys(self._sizes._c), lambda k: k <= unopt(result)))",
         "implies(not old(self._track_size), " + SIZES_POST + ")",
+        # already tracked: the size multiset is only read
+        "implies(old(self._track_size), forall(lambda k: (k in self._sizes._c) == old(k in self._sizes._c)))",
     ],
     nloops=1,
     loops={0: Loop(pos="t", inv=["sizes_wf", SIZES_INV])},
